@@ -65,7 +65,7 @@ Inductive rd_out := RdOk (l:list line) | RdErr (e:err) | RdPanic.
 Definition fwim_read (f:ofile) (p:nat) (cb:cbmode) (start end_ full:N) : M (list line) :=
   let* region := of_read_from f 0 in
   match read_with_processor _ proc_read p cb region start end_ full (0%N, []) with
-  | RDone (_, out) => ret (rev out)
+  | RDone (_, out) => ret (frev out)
   | RStopped _ => mpanic                                    (* "impossible" *)
   | RCorrupt _ => fail ECorrupt
   | RIo _ => fail EOther
@@ -74,7 +74,7 @@ Definition fwim_read (f:ofile) (p:nat) (cb:cbmode) (start end_ full:N) : M (list
 Definition fwim_read_first_n (f:ofile) (p:nat) (cb:cbmode) (n:N) (start end_ full:N) : M (list line) :=
   let* region := of_read_from f 0 in
   match read_with_processor _ (proc_first_n n) p cb region start end_ full (0%N, []) with
-  | RDone (_, out) | RStopped (_, out) => ret (rev out)
+  | RDone (_, out) | RStopped (_, out) => ret (frev out)
   | RCorrupt _ => fail ECorrupt
   | RIo _ => fail EOther
   | RPanic => mpanic
@@ -84,7 +84,7 @@ Definition fwim_read_resampling (f:ofile) (p:nat) (cb:cbmode) (bucket:N) (start 
   let* region := of_read_from f 0 in
   let s0 := {| sm_sum := 0; sm_n := 0; sm_state := rs_zero p; sm_out := [] |} in
   match read_with_processor _ (proc_sample p bucket) p cb region start end_ full s0 with
-  | RDone s => ret (rev (sm_out s))
+  | RDone s => ret (frev (sm_out s))
   | RStopped _ => mpanic
   | RCorrupt _ => fail ECorrupt
   | RIo _ => fail EOther
